@@ -93,16 +93,30 @@ Definition tobs_url (o : tobs) : str := match o with T _ u _ _ _ _ => u end.
 Definition tobs_key_eqb (a b : tobs) : bool :=
   match a, b with T s u _ tg _ _, T s' u' _ tg' _ _ => beq s s' && beq u u' && list_eqb beq tg tg' end.
 
-Fixpoint sorted_desc (ps : list str) : bool :=
+(* The command language prescribes WHICH routes and targets a host has, not the order in which a
+   lookup tries the routes (that is C03's property; NewTable's sort changed in /repo c1f03c0).  The
+   spec therefore demands distinct paths per host and compares the routes of a host as a set:
+   both sides are put in one canonical order (ascending path bytes) before they are compared.
+   The correspondence ([same]) still compares the exact order with the model's sort. *)
+Fixpoint distinct_paths (ps : list str) : bool :=
   match ps with
-  | a :: (b :: _) as r => str_ltb b a && sorted_desc r
-  | _ => true
+  | [] => true
+  | a :: r => negb (existsb (beq a) r) && distinct_paths r
   end.
+Fixpoint insert_robs (x : robs) (l : list robs) : list robs :=
+  match l with
+  | [] => [x]
+  | y :: l' => if str_ltb (fst x) (fst y) then x :: l else y :: insert_robs x l'
+  end.
+Definition canon_routes (t : tblobs) : tblobs :=
+  map (fun h : hobs => (fst h, fold_right insert_robs [] (snd h))) t.
+Definition canon_out (o : outcome tblobs) : outcome tblobs :=
+  match o with Ok t => Ok (canon_routes t) | x => x end.
 Definition shape_ok (t : tblobs) : bool :=
   forallb (fun h : hobs =>
     beq (lower (fst h)) (fst h)
     && negb (match snd h with [] => true | _ => false end)
-    && sorted_desc (map fst (snd h))
+    && distinct_paths (map fst (snd h))
     && forallb (fun r : robs => negb (match snd r with [] => true | _ => false end)
                                 && forallb (fun o => w_in_range (tobs_w o)) (snd r))
                (snd h)) t.
@@ -144,12 +158,15 @@ Definition all_targets (t : tblobs) : list tobs := flat_map (fun h : hobs => fla
 Definition rt_domain (t : tblobs) : bool :=
   forallb (fun h : hobs => forallb (fun r : robs => distinct_keys (snd r)) (snd h)) t.
 (* finding regions of the round trip *)
-Definition has_dropped (t : tblobs) : bool := existsb (fun o => negb (tobs_live o)) (all_targets t).
-Definition needs_escape (c : N) : bool := (c =? 92) || (c =? 34) || (c <? 32) || (127 <=? c).
+(* (region 2, targets with effective weight 0 left out of String(), F-C05-2, was repaired by /repo
+   cb21db5: String() prints every target; a regression is a violation) *)
+(* region 3 (F-C05-3, open): a single empty tag -- rendered as tags "" and read back as no tags.
+   (Tags that %q used to escape -- backslash, control, non-printable bytes -- round-trip since /repo
+   dfc4ae0 and are in no region any more: a regression there is a violation.) *)
 Definition bad_tags (tg : list str) : bool :=
   match tg with
   | [[]] => true
-  | _ => existsb needs_escape (join tg [44])
+  | _ => false
   end.
 Definition has_bad_tags (t : tblobs) : bool := existsb (fun o => bad_tags (tobs_tags o)) (all_targets t).
 Definition has_unstable_url (canon : str -> option str) (t : tblobs) : bool :=
@@ -188,7 +205,7 @@ Definition check_case (c : case) : N :=
                       | Err k => Err k
                       | Panic => Panic
                       end in
-      let spec := out_eqb tbl_eqb impl spec_tbl
+      let spec := out_eqb tbl_eqb (canon_out impl) (canon_out spec_tbl)
                   && match impl with Ok t => shape_ok t | Err _ => true | Panic => false end in
       let region : option N := None in
       let nontriv := match defs with Ok ds => interesting canon gl [] ds | _ => false end in
@@ -201,9 +218,8 @@ Definition check_case (c : case) : N :=
                   && beq (render t) itext
                   && out_eqb tbl_eqb irt (obs_out (new_table pweight_dec canon gl itext)) in
       let dom := rt_domain tbl in
-      let spec := negb dom || match irt with Ok rt => tbl_rt_eqb tbl rt | _ => false end in
-      let region := if has_dropped tbl then Some 2
-                    else if has_bad_tags tbl then Some 3
+      let spec := negb dom || match irt with Ok rt => tbl_rt_eqb (canon_routes tbl) (canon_routes rt) | _ => false end in
+      let region := if has_bad_tags tbl then Some 3
                     else if has_unstable_url canon tbl then Some 4
                     else None in
       verdict same spec region (dom && negb (match tbl with [] => true | _ => false end))
